@@ -69,6 +69,9 @@ class C02(S4UCheck):
             plan = importlib.import_module(src).CHECK.gen(seed, tier)
         plan['seed'] = seed
         plan['source'] = src
+        if src == 'c21':
+            # the tuner of the workload campaign names activities of other actors through the harness' handle table
+            plan['actors'] = [a for a in plan['actors'] if a['id'] != 'tun']
         if src == 'c11':
             # a restarted incarnation registers itself in the harness' name table from its own context, while controllers
             # look their victims up by name: memory shared between actors outside of the simulated synchronisations, which
